@@ -102,7 +102,7 @@ impl Write for Faulty {
 
 /// C11: every single failing call of a whole build surfaces as Err(Io).
 pub fn fault_enumeration(fam: &[Art], index: &mut Index) {
-    let names = ["empty", "only_empty_key_map", "months", "mono4", "boundary"];
+    let names = ["empty", "only_empty_key_map", "months", "mono4", "boundary", "fan33_set", "fan33_map", "kfinal33", "fan256_map"];
     for a in fam.iter().filter(|a| names.contains(&a.name.as_str())) {
         // count the calls of a fault-free build
         let total = match build_into(a, Faulty { fail_at: usize::MAX, zero: false, calls: 0, fired: false, accepted: 0, last_was_flush: false }) {
